@@ -2,7 +2,8 @@
      A  every primitive reader consumes input, hence a repeated reader cannot return more elements
         than there are bytes (a count larger than the remaining input always fails);
      B  which sections are therefore immune and which are not: the resource answers (Err EFuel) of
-        Header.parse_header that tiny inputs reach;
+        Header.parse_header that tiny inputs reach (numfiles, sub-stream counts), the bind-pair and
+        packpositions passes are linear;
      C' on bytes, what remains are bytes and every NUMBER read is non-negative;
      D  parse_cost_partial: the object graph the parser builds is linear in the input and the limit.
    Nothing but props/C05.v requires this file (the extracted model does not depend on it).
@@ -298,6 +299,17 @@ Qed.
 
 (* ---- B. sections: where a declared count is backed by bytes and where it is not ---- *)
 
+Lemma expand_crcs_length : forall defined vals crcs,
+  expand_crcs defined vals = Ok crcs -> length crcs = length defined.
+Proof.
+  induction defined as [|d ds IH]; intros vals crcs H; cbn [expand_crcs] in H.
+  - injection H as <-. reflexivity.
+  - destruct d.
+    + destruct vals as [|c cs]; [discriminate|]. bind_ok H. injection H as <-.
+      cbn [length]. rewrite (IH _ _ E). reflexivity.
+    + bind_ok H. injection H as <-. cbn [length]. rewrite (IH _ _ E). reflexivity.
+Qed.
+
 (* PackInfo: the sizes are read one by one, so with a SIZE section numstreams <= input;
    without it numstreams is free (and range(numstreams + 1) is walked at l.270) *)
 Lemma parse_packinfo_bound lim bs p r :
@@ -328,7 +340,7 @@ Proof.
         bind_ok E2. destruct x as [cr r8]. unfold rd_defined_crcs in E4.
         apply (rd_many_count_le (rd_fixed 4) _ r7 cr r8 (rd_fixed_consumes 4 ltac:(lia))) in E4.
         destruct E4 as (_ & _ & Hlen8).
-        bind_ok E2. destruct x as [pid3 r9]. apply rd_pid_nonincreasing in E4.
+        bind_ok E2. bind_ok E2. destruct x0 as [pid3 r9]. apply rd_pid_nonincreasing in E5.
         inversion E2; subst. split; [|right; exact Hn].
         unfold zlen in *. lia.
       + assert (E2' : Ok (sz, [], [], Some pv2, r6) = Ok (sizes, defined, crcs, pid', r4)).
@@ -376,6 +388,11 @@ Proof.
       { apply rd_boolean_fuel in H. lia. }
       apply bind_fuel in H. destruct H as [H|[[cr r8] [_ H]]].
       { exact (rd_many_fuel_free (rd_fixed 4) _ (rd_fixed_fuel_free 4) _ H). }
+      apply bind_fuel in H. destruct H as [H|[ex [_ H]]].
+      { clear - H. revert cr H. induction df as [|d ds IH]; intros cr H; cbn [expand_crcs] in H; [discriminate|].
+        destruct d.
+        - destruct cr as [|c cs]; [discriminate|]. apply bind_fuel in H. destruct H as [H|[x [_ H]]]; [exact (IH _ H)|discriminate].
+        - apply bind_fuel in H. destruct H as [H|[x [_ H]]]; [exact (IH _ H)|discriminate]. }
       apply bind_fuel in H. destruct H as [H|[[pid3 r9] [_ H]]]; [|discriminate].
       destruct r8; discriminate.
     + destruct pv2 as [|q|q]; try discriminate H.
@@ -459,28 +476,6 @@ Proof.
   rewrite (parse_files_fuel lim N63 (2 ^ 63) [] (rd_number_N63 []) Hl). reflexivity.
 Qed.
 
-(* PackInfo._read without a SIZE section: range(numstreams + 1) is walked with no byte behind it *)
-Lemma parse_packinfo_fuel_intro lim bs pos n r1 r2 :
-  rd_number bs = Ok (pos, r1) -> rd_number r1 = Ok (n, r2) -> lim < n ->
-  parse_packinfo lim bs = Err EFuel.
-Proof.
-  intros H1 H2 Hl. unfold parse_packinfo. rewrite H1. cbn [bind]. rewrite H2. cbn [bind].
-  destruct r2 as [|b r2]; cbn [rd_pid bind]; (destruct (lim <? n) eqn:E; [reflexivity|lia]).
-Qed.
-
-(* HEADER, MAIN_STREAMS_INFO, PACK_INFO, packpos = 0, numstreams = 2^63 *)
-Definition witness_numstreams : bytes := [1; 4; 6; 0] ++ N63.
-Theorem numstreams_alloc_witness :
-  length witness_numstreams = 13%nat /\
-  forall lim, lim < 2 ^ 63 -> parse_header lim witness_numstreams = Err EFuel.
-Proof.
-  split; [reflexivity|]. intros lim Hl.
-  unfold witness_numstreams, parse_header. cbn [app]. unfold parse_header_body.
-  cbn [rd_pid bind]. unfold parse_streams. cbn [rd_pid bind].
-  rewrite (parse_packinfo_fuel_intro lim (0 :: N63) 0 (2 ^ 63) N63 [] eq_refl (rd_number_N63 []) Hl).
-  reflexivity.
-Qed.
-
 (* SubstreamsInfo._read: one folder (Copy coder, unpack size 0) declared to hold 2^63 sub-streams:
    [False] * total, [0] * total (or [True] * num_digests) with no byte behind them *)
 Definition witness_substreams : bytes :=
@@ -491,7 +486,7 @@ Theorem substreams_alloc_witness :
   parse_header (2 ^ 20 * zlen witness_substreams) witness_substreams = Err EFuel.
 Proof. split; [reflexivity|]. split; vm_compute; reflexivity. Qed.
 
-(* the three witnesses together: a header of at most 23 bytes on which the work of the
+(* a header of 11 bytes on which the work of the
    parser exceeds every bound that is linear in the input with coefficients below 2^57 *)
 Theorem alloc_by_declared_count_refuted :
   exists bs, (length bs <= 40)%nat /\
@@ -677,7 +672,7 @@ Proof.
         bind_ok E2. destruct x as [df r7]. pose proof (rd_boolean_wfp _ _ _ _ _ _ E5 W6) as W7.
         bind_ok E2. destruct x as [cr r8]. unfold rd_defined_crcs in E6.
         pose proof (rd_many_wfp (rd_fixed 4) _ (rd_fixed_wfp 4) _ _ _ E6 W7) as W8.
-        bind_ok E2. destruct x as [pid3 r9]. injection E2 as _ _ _ _ <-. exact (rd_pid_wfp _ _ _ E7 W8).
+        bind_ok E2. bind_ok E2. destruct x0 as [pid3 r9]. injection E2 as _ _ _ _ <-. exact (rd_pid_wfp _ _ _ E8 W8).
       + assert (E2' : Ok (sz, [], [], Some pv2, r6) = Ok (sizes, defined, crcs, pid', r4)).
         { destruct pv2 as [|q|q]; try exact E2.
           do 4 (destruct q as [q|q|]; try exact E2). discriminate E10. }
@@ -876,7 +871,7 @@ Proof.
 Qed.
 
 Lemma parse_packinfo_size lim bs p r :
-  parse_packinfo lim bs = Ok (p, r) -> pack_size p + 3 * zlen r <= 3 * zlen bs + Z.max lim 0 + 1.
+  parse_packinfo lim bs = Ok (p, r) -> pack_size p + 4 * zlen r <= 4 * zlen bs + 1.
 Proof.
   intros H. unfold parse_packinfo in H.
   bind_ok H. destruct x as [pos r1]. apply rd_number_consumes in E.
@@ -884,7 +879,7 @@ Proof.
   bind_ok H. destruct x as [pid r3]. apply rd_pid_nonincreasing in E1.
   destruct (lim <? n) eqn:El; [discriminate|].
   bind_ok H. destruct x as [[[[sizes defined] crcs] pid'] r4].
-  assert (Hs : zlen sizes + zlen defined + zlen crcs + 3 * zlen r4 <= 3 * zlen r3).
+  assert (Hs : 2 * zlen sizes + zlen defined + zlen crcs + 4 * zlen r4 <= 4 * zlen r3).
   { destruct pid as [pv|]; [|injection E2 as <- <- <- _ <-; unfold zlen; cbn [length]; lia].
     destruct (pv =? 9) eqn:E9.
     - apply Z.eqb_eq in E9. subst pv.
@@ -899,7 +894,8 @@ Proof.
         bind_ok E2. destruct x as [cr r8]. unfold rd_defined_crcs in E4.
         apply (rd_many_count_le (rd_fixed 4) _ r7 cr r8 (rd_fixed_consumes 4 ltac:(lia))) in E4.
         destruct E4 as (_ & _ & Hlen8).
-        bind_ok E2. destruct x as [pid3 r9]. apply rd_pid_nonincreasing in E4.
+        bind_ok E2. apply expand_crcs_length in E4.
+        bind_ok E2. destruct x0 as [pid3 r9]. apply rd_pid_nonincreasing in E5.
         injection E2 as <- <- <- _ <-. unfold zlen in *. lia.
       + assert (E2' : Ok (sz, [], [], Some pv2, r6) = Ok (sizes, defined, crcs, pid', r4)).
         { destruct pv2 as [|q|q]; try exact E2.
@@ -914,6 +910,40 @@ Proof.
   unfold pack_size. cbn [p_numstreams p_sizes p_digestdefined p_crcs].
   unfold zlen in *. lia.
 Qed.
+
+(* packpositions: one cell per pack size that was read, plus one; numstreams plays no part *)
+Theorem parse_packinfo_packpositions_linear lim bs p r :
+  parse_packinfo lim bs = Ok (p, r) -> 2 * zlen (packpositions (p_sizes p)) <= 4 * zlen bs + 2.
+Proof.
+  intros H. apply parse_packinfo_size in H. destruct (packpositions_linear (p_sizes p)) as [Hl _].
+  unfold pack_size in H. pose proof (zlen_nonneg (p_digestdefined p)). pose proof (zlen_nonneg (p_crcs p)).
+  pose proof (zlen_nonneg r). lia.
+Qed.
+
+(* Folder._read: the set of bound inputs is built from the bonds that were read, and the pass over
+   range(totalin) is taken only when totalin = number of bonds + 1 *)
+Theorem parse_folder_bindpairs_linear lim bs f r :
+  parse_folder lim bs = Ok (f, r) ->
+  let totalin := sumZ (map c_nin (f_coders f)) in
+  let nbonds := sumZ (map c_nout (f_coders f)) - 1 in
+  totalin - nbonds = 1 ->
+  packed_indices_steps (f_bonds f) totalin <= 2 * zlen bs + 1.
+Proof.
+  intros H. unfold parse_folder in H.
+  bind_ok H. destruct x as [nc r1]. apply rd_number_consumes in E.
+  bind_ok H. destruct x as [coders r2].
+  apply (rd_many_count_le parse_coder nc r1 coders r2 parse_coder_consumes) in E0. destruct E0 as (_ & _ & Hc).
+  bind_ok H. destruct x as [bonds r3].
+  apply (rd_many_count_le rd_bond _ r2 bonds r3 rd_bond_consumes) in E0. destruct E0 as (_ & Hbl & Hb).
+  assert (Hf : f_coders f = coders /\ f_bonds f = bonds).
+  { destruct (_ - _ =? 1).
+    - destruct (lim <? _); [discriminate|]. injection H as <- _. split; reflexivity.
+    - bind_ok H. destruct x as [packed r4]. injection H as <- _. split; reflexivity. }
+  destruct Hf as [-> ->]. cbv zeta. intros Hone. unfold packed_indices_steps.
+  pose proof (zlen_nonneg coders). pose proof (zlen_nonneg r2). pose proof (zlen_nonneg r3).
+  unfold zlen in *. lia.
+Qed.
+
 
 (* SubstreamsInfo *)
 Lemma rd_sub_sizes_size : forall nums fs bs l r,
@@ -930,17 +960,6 @@ Proof.
       * bind_ok H. bind_ok H. destruct x0 as [rest r2]. apply IH in E0.
         injection H as <- <-. unfold zlen in *. rewrite !app_length. cbn [length]. lia.
       * apply IH in H. unfold zlen in *. cbn [length]. lia.
-Qed.
-
-Lemma expand_crcs_length : forall defined vals crcs,
-  expand_crcs defined vals = Ok crcs -> length crcs = length defined.
-Proof.
-  induction defined as [|d ds IH]; intros vals crcs H; cbn [expand_crcs] in H.
-  - injection H as <-. reflexivity.
-  - destruct d.
-    + destruct vals as [|c cs]; [discriminate|]. bind_ok H. injection H as <-.
-      cbn [length]. rewrite (IH _ _ E). reflexivity.
-    + bind_ok H. injection H as <-. cbn [length]. rewrite (IH _ _ E). reflexivity.
 Qed.
 
 Lemma sub_assign_digests_size lim : forall nums fs defined crcs d g,
@@ -1065,15 +1084,15 @@ Qed.
 
 Lemma parse_streams_size lim bs s r :
   wf_bytes bs = true -> parse_streams lim bs = Ok (s, r) ->
-  streams_size s + 17 * zlen r <= 17 * zlen bs + 3 * Z.max lim 0 + 1.
+  streams_size s + 17 * zlen r <= 17 * zlen bs + 2 * Z.max lim 0 + 1.
 Proof.
   intros W H. unfold parse_streams in H.
   bind_ok H. destruct x as [pid r1]. pose proof (rd_pid_wfp _ _ _ E W) as W1. apply rd_pid_nonincreasing in E.
   bind_ok H. destruct x as [[pack pid2] r2].
-  assert (Hp : match pack with Some p => pack_size p | None => 0 end + 3 * zlen r2
-               <= 3 * zlen r1 + Z.max lim 0 + 1 /\ zlen r2 <= zlen r1 /\ wf_bytes r2 = true).
+  assert (Hp : match pack with Some p => pack_size p | None => 0 end + 4 * zlen r2
+               <= 4 * zlen r1 + 1 /\ zlen r2 <= zlen r1 /\ wf_bytes r2 = true).
   { assert (Hdef : Ok (@None packinfo, pid, r1) = Ok (pack, pid2, r2) ->
-                   match pack with Some p => pack_size p | None => 0 end + 3 * zlen r2 <= 3 * zlen r1 + Z.max lim 0 + 1
+                   match pack with Some p => pack_size p | None => 0 end + 4 * zlen r2 <= 4 * zlen r1 + 1
                    /\ zlen r2 <= zlen r1 /\ wf_bytes r2 = true).
     { intros E'. injection E' as <- _ <-. split; [lia|]. split; [lia|exact W1]. }
     destruct pid as [pv|]; [|exact (Hdef E0)].
@@ -1336,14 +1355,14 @@ Proof.
 Qed.
 
 Lemma parse_header_body_size lim bs h r :
-  wf_bytes bs = true -> parse_header_body lim bs = Ok (h, r) -> header_size h <= 17 * zlen bs + 5 * Z.max lim 0 + 1.
+  wf_bytes bs = true -> parse_header_body lim bs = Ok (h, r) -> header_size h <= 17 * zlen bs + 4 * Z.max lim 0 + 1.
 Proof.
   intros W H. unfold parse_header_body in H.
   bind_ok H. destruct x as [pid r1]. pose proof (rd_pid_wfp _ _ _ E W) as W1. apply rd_pid_nonincreasing in E.
   bind_ok H. destruct x as [[st pid2] r2].
-  assert (Hs : match st with Some s => streams_size s | None => 0 end + 17 * zlen r2 <= 17 * zlen r1 + 3 * Z.max lim 0 + 1).
+  assert (Hs : match st with Some s => streams_size s | None => 0 end + 17 * zlen r2 <= 17 * zlen r1 + 2 * Z.max lim 0 + 1).
   { assert (Hdef : Ok (@None streamsinfo, pid, r1) = Ok (st, pid2, r2) ->
-                   match st with Some s => streams_size s | None => 0 end + 17 * zlen r2 <= 17 * zlen r1 + 3 * Z.max lim 0 + 1).
+                   match st with Some s => streams_size s | None => 0 end + 17 * zlen r2 <= 17 * zlen r1 + 2 * Z.max lim 0 + 1).
     { intros E'. injection E' as <- _ <-. lia. }
     destruct pid as [pv|]; [|exact (Hdef E0)].
     destruct (pv =? 4) eqn:E4.
@@ -1372,7 +1391,7 @@ Proof.
 Qed.
 
 Theorem parse_cost_partial lim bs h :
-  wf_bytes bs = true -> parse_header lim bs = Ok h -> header_size h <= 17 * zlen bs + 5 * Z.max lim 0 + 1.
+  wf_bytes bs = true -> parse_header lim bs = Ok h -> header_size h <= 17 * zlen bs + 4 * Z.max lim 0 + 1.
 Proof.
   intros W H. unfold parse_header in H.
   destruct bs as [|b r]; [injection H as <-; unfold header_size, zlen; cbn [h_streams h_files h_emptyfiles length]; lia|].
@@ -1385,7 +1404,7 @@ Qed.
 
 (* every declared count within the limit and the limit within the input: linear *)
 Corollary parse_cost_linear lim bs h :
-  wf_bytes bs = true -> lim <= zlen bs -> parse_header lim bs = Ok h -> header_size h <= 22 * zlen bs + 1.
+  wf_bytes bs = true -> lim <= zlen bs -> parse_header lim bs = Ok h -> header_size h <= 21 * zlen bs + 1.
 Proof.
   intros W Hl H. apply (parse_cost_partial _ _ _ W) in H. pose proof (zlen_nonneg bs). lia.
 Qed.
@@ -1397,8 +1416,9 @@ Print Assumptions parse_packinfo_bound.
 Print Assumptions parse_packinfo_fuel.
 Print Assumptions parse_folder_fuel.
 Print Assumptions numfiles_alloc_witness.
-Print Assumptions numstreams_alloc_witness.
 Print Assumptions substreams_alloc_witness.
 Print Assumptions alloc_by_declared_count_refuted.
+Print Assumptions parse_packinfo_packpositions_linear.
+Print Assumptions parse_folder_bindpairs_linear.
 Print Assumptions parse_cost_partial.
 Print Assumptions parse_cost_linear.
